@@ -3,6 +3,7 @@
 (and, where stated, the specification's) answer per line on stdout.
 -/
 import FendModel.Model.Proto
+import FendModel.Model.Complex
 import FendModel.Model.Json
 import FendModel.Model.Inline
 import FendModel.Model.StrLit
@@ -36,6 +37,8 @@ def biguintLine (line : String) : String :=
   | ["sub", a, b] => u2 (fun x y => one (x.sub y)) a b
   | ["mul", a, b] => u2 (fun x y => one (.ok (x.mul y))) a b
   | ["divmod", a, b] => u2 (fun x y => showR (fun (q, r) => showUint q ++ " " ++ showUint r) (x.divmod y)) a b
+  | ["div", a, b] => u2 (fun x y => one (BigUint.div x y)) a b
+  | ["rem", a, b] => u2 (fun x y => one (BigUint.rem x y)) a b
   | ["cmp", a, b] => u2 (fun x y => "ok " ++ showOrd (x.cmp y)) a b
   | ["gcd", a, b] => u2 (fun x y => one (BigUint.gcd x y)) a b
   | ["pow", a, b] => u2 (fun x y => one (BigUint.pow x y)) a b
@@ -66,6 +69,17 @@ def bigratLine (line : String) : String :=
   let one := fun (r : R BigRat) => showR showRat r
   let ex := fun (r : R (BigRat × Bool)) => showR (fun (v, e) => showRat v ++ (if e then " exact" else " approx")) r
   match ws with
+  | [op, ar, ai, br, bi] =>
+    match parseRat ar, parseRat ai, parseRat br, parseRat bi with
+    | some xr, some xi, some yr, some yi =>
+      let x : Fend.Cx := ⟨xr, xi⟩
+      let y : Fend.Cx := ⟨yr, yi⟩
+      let res : Option (R Fend.Cx) := match op with
+        | "cadd" => some (Fend.Cx.add x y) | "cmul" => some (Fend.Cx.mul x y) | "cdiv" => some (Fend.Cx.div x y) | _ => none
+      (match res with
+        | some r => showR (fun (c : Fend.Cx) => showRat c.re ++ " " ++ showRat c.im ++ " exact") r
+        | none => "bad-op")
+    | _, _, _, _ => "bad-op"
   | ["add", a, b] => q2 (fun x y => one (x.add y)) a b
   | ["sub", a, b] => q2 (fun x y => one (x.sub y)) a b
   | ["mul", a, b] => q2 (fun x y => one (.ok (x.mul y))) a b
